@@ -16,6 +16,7 @@ import (
 	"github.com/cossacklabs/acra/decryptor/postgresql"
 	"github.com/cossacklabs/acra/utils"
 
+	"verifharness/internal/c04/fakemy"
 	"verifharness/internal/c04/fakepg"
 	"verifharness/internal/core"
 	env "verifharness/internal/envops"
@@ -451,6 +452,76 @@ func corpus(r *core.Run) {
 		rs, err := a.C.Simple("insert into t1 (id, note) values (7, 'n') returning id")
 		good := err == nil && len(rs) == 1 && len(rs[0].Fields) == 1 && rs[0].Fields[0].DataTypeOID == 23
 		r.Check(good, "rowdescription-stale-settings", "INSERT … RETURNING id right after a SELECT of a text-typed protected column: the int4 column is described as text (type OID of the earlier statement's setting)")
+		w.Close()
+	}
+	// 7. ON CONFLICT … DO UPDATE SET on an encrypted column, literal and parameter (fixed: forwarded in clear)
+	{
+		r.Begin("corpus-pg-on-conflict", true, "case:corpus")
+		w, a := open()
+		a.C.Simple("insert into t1 (id, data) values (1, 'old')")
+		_, err := a.C.Simple("insert into t1 (id) values (1) on conflict (id) do update set data = 'SECRETMARKER07'")
+		rs, err2 := a.C.Extended(fakepg.Ext{Parse: true, Name: "s", SQL: "insert into t1 (id, note) values ($1, 'n') on conflict (id) do update set data = $2", Bind: true, Params: [][]byte{[]byte("1"), []byte("SECRETMARKER08")}, Execute: true})
+		r.Check(err == nil && err2 == nil && a.Panic == nil && len(rs) > 0 && rs[len(rs)-1].Err == "", "session-broken", fmt.Sprintf("corpus 7: upsert failed (%v, %v, panic %v)", err, err2, a.Panic))
+		r.Check(!bytes.Contains(w.DB.In.Bytes(), []byte("SECRETMARKER0")), "plaintext-at-database", "INSERT … ON CONFLICT (id) DO UPDATE SET data = <value>: the value of the encrypted column reached the database in clear (encryptor/postgresql/queryDataEncryptor.go)")
+		rs, err = a.C.Simple("select data from t1 where id = 1")
+		good := err == nil && len(rs) == 1 && len(rs[0].Rows) == 1 && rs[0].Rows[0][0] != nil
+		if good {
+			dec, _ := fakepg.DecodeByteaText(*rs[0].Rows[0][0])
+			good = string(dec) == "SECRETMARKER08"
+		}
+		r.Check(good, "owner-read-mismatch", "corpus 7: the owner does not read back the value assigned by ON CONFLICT DO UPDATE")
+		w.Close()
+	}
+	myTabs := []fakemy.TableDef{
+		{Name: "t1", Cols: []fakemy.Column{{Name: "id", Type: fakemy.TypeLong}, {Name: "data", Type: fakemy.TypeBlob}, {Name: "note", Type: fakemy.TypeVarString}}},
+		{Name: "t2", Cols: []fakemy.Column{{Name: "id", Type: fakemy.TypeLong}, {Name: "data", Type: fakemy.TypeBlob}, {Name: "note", Type: fakemy.TypeVarString}}},
+	}
+	myOpen := func() (*MyWorld, *MySess) {
+		w, err := NewMyWorld(corpusYAML, ks, myTabs, rd.Bytes(1<<14))
+		if err != nil {
+			panic("harness: " + err.Error())
+		}
+		a, err := w.Open("alice", 0)
+		if err != nil {
+			panic("harness: " + err.Error())
+		}
+		return w, a
+	}
+	// 8. MySQL: parameter assigned in ON DUPLICATE KEY UPDATE (fixed: forwarded in clear)
+	{
+		r.Begin("corpus-my-on-duplicate-parameter", true, "case:corpus")
+		w, a := myOpen()
+		a.C.Query("insert into t1 (id, data) values (1, 'old')")
+		st, _, err := a.C.Prepare("insert into t1 (id, note) values (?, 'n') on duplicate key update data = ?")
+		var res *fakemy.Result
+		if err == nil && st != nil {
+			res, err = a.C.Execute(st, []fakemy.Param{{Type: fakemy.TypeLong, Data: []byte("1")}, {Type: fakemy.TypeVarString, Data: []byte("SECRETMARKER09")}}, true)
+		}
+		r.Check(err == nil && res != nil && res.Err == "", "session-broken", fmt.Sprintf("corpus 8: prepared upsert failed (%v %v, panic %v)", err, res, a.panicked()))
+		r.Check(!bytes.Contains(w.DB.In.Bytes(), []byte("SECRETMARKER09")), "plaintext-at-database", "COM_STMT_EXECUTE parameter assigned in ON DUPLICATE KEY UPDATE to an encrypted column reached the database in clear (encryptor/mysql/queryDataEncryptor.go encryptInsertValues)")
+		res, err = a.C.Query("select data from t1 where id = 1")
+		r.Check(err == nil && res.Err == "" && len(res.Rows) == 1 && res.Rows[0][0] != nil && string(*res.Rows[0][0]) == "SECRETMARKER09", "owner-read-mismatch", "corpus 8: the owner does not read back the value assigned by ON DUPLICATE KEY UPDATE")
+		w.Close()
+	}
+	// 9. KNOWN: INSERT … SELECT is not analysed (both front ends)
+	{
+		r.Begin("corpus-insert-select", true, "case:corpus")
+		w, a := open()
+		a.C.Simple("insert into t1 (id, data) select 2, 'SECRETMARKER10'")
+		r.Check(!bytes.Contains(w.DB.In.Bytes(), []byte("SECRETMARKER10")), "insert-select-plaintext", "PostgreSQL: insert into t1 (id, data) select 2, '<value>' stores the value of the encrypted column in clear")
+		w.Close()
+		mw, ma := myOpen()
+		ma.C.Query("insert into t1 (id, data) select 2, 'SECRETMARKER11'")
+		r.Check(!bytes.Contains(mw.DB.In.Bytes(), []byte("SECRETMARKER11")), "insert-select-plaintext", "MySQL: insert into t1 (id, data) select 2, '<value>' stores the value of the encrypted column in clear")
+		mw.Close()
+	}
+	// 10. KNOWN: PostgreSQL multi-column assignment
+	{
+		r.Begin("corpus-pg-update-multiassign", true, "case:corpus")
+		w, a := open()
+		a.C.Simple("insert into t1 (id, data) values (1, 'old')")
+		a.C.Simple("update t1 set (data, note) = ('SECRETMARKER12', 'n') where id = 1")
+		r.Check(!bytes.Contains(w.DB.In.Bytes(), []byte("SECRETMARKER12")), "pg-update-multiassign-plaintext", "update t1 set (data, note) = ('<value>', 'n') stores the value of the encrypted column in clear")
 		w.Close()
 	}
 }
